@@ -252,9 +252,10 @@ def tearfree_maybe_graft(ctx):
   if len(wh) == 1 and s == wh[0]:
     c, a, b = wh[0].args
     nb = sp.Function('norm')(base)
-    ok_guard = str(c.func) == 'lt' and c.args[0] == 0 and c.args[1] == nb
-    ok_zero = ok_guard and b == 0
-    ident_ok = equal(sp.simplify(a * nb), sp.Function('norm')(gu))
+    # canonical form of `where(||base|| > 0, ratio, 0)`: where(0 >= ||base||, 0, ratio)  [symb: le(||base||, 0)]
+    ok_guard = str(c.func) == 'le' and c.args[1] == 0 and c.args[0] == nb
+    ok_zero = ok_guard and a == 0
+    ident_ok = equal(sp.simplify(b * nb), sp.Function('norm')(gu))
   else:
     ident_ok = equal(_norm_simplify(s * sp.Function('norm')(base)), sp.Function('norm')(gu)) and not s.has(base.func) if False else \
         equal(sp.simplify(s * sp.Function('norm')(base)), sp.Function('norm')(gu))
